@@ -1842,6 +1842,44 @@ def _c18_capture_handler_harnesses(prop, tier):
     return out
 
 
+def _c18_deferred_err_op_harnesses(prop):
+    """C18 (native only): the later step of the other branch starts with a deferred ERROR operator (`~<=`, `~!>`, `~<|`) on a
+    failed value: it belongs to step 1 and must not run when step 0 panicked"""
+    out = []
+    for mac in ("join", "join_spawn", "join_async", "join_async_spawn"):
+        is_async = "async" in mac
+        for op in ("or_else", "map_err", "or"):
+            if is_async:
+                b0 = "async move { Err::<u8, u8>(1) }"
+                if op == "or_else":
+                    b0 += " ~<= move |e: u8| async move { ev_e(ep, code(K_CALL, 0, 1, 0)); Ok::<u8, u8>(e) }"
+                elif op == "map_err":
+                    b0 += " ~!> move |e: u8| { ev_e(ep, code(K_CALL, 0, 1, 0)); e }"
+                else:
+                    continue
+                b1 = "async move { if true { panic!(\"INJECTED\") } Ok::<u8, u8>(2) }"
+            else:
+                b0 = "Err::<u8, u8>(1)"
+                if op == "or_else":
+                    b0 += " ~<= move |e: u8| { ev_e(ep, code(K_CALL, 0, 1, 0)); Ok::<u8, u8>(e) }"
+                elif op == "map_err":
+                    b0 += " ~!> move |e: u8| { ev_e(ep, code(K_CALL, 0, 1, 0)); e }"
+                else:
+                    b0 += " ~<| { ev_e(ep, code(K_CAP, 0, 1, 0)); Ok::<u8, u8>(3) }"
+                b1 = "Ok::<u8, u8>(2) |> |x: u8| -> u8 { panic!(\"INJECTED\") }"
+            prog = "%s! { %s, %s }" % (mac, b0, b1)
+            run = ("block_on_tokio(async move { let _ = %s.await; })" % prog) if is_async else ("{ let _ = %s; }" % prog)
+            b = "    let ep = epoch_begin();\n"
+            b += "    let res = with_watchdog(move || std::panic::catch_unwind(std::panic::AssertUnwindSafe(|| %s)).is_err());\n" % run
+            b += "    assert!(res == Some(true), \"C18: the panic of a user expression did not reach the caller\");\n"
+            b += "    std::thread::sleep(std::time::Duration::from_millis(30));\n"
+            b += "    let nev = tlen().min(TMAX);\n"
+            b += "    for k in 0..nev { assert!(step_of(tr(k)) == 0, \"C18: an expression of a later step (a deferred error operator) ran although step 0 panicked\"); }\n"
+            hn = "%s_panic_deferred_%s_%s" % (prop.lower(), op, mac)
+            out.append(Harness(hn, harness_fn(hn, b), prog, note="branch 1 panics in step 0, branch 0's step 1 is a deferred error operator on a failed value"))
+    return out
+
+
 def _c18_blocked_sibling_harnesses(prop, tier):
     """C18 (native only): branch 0 panics in step s while every later-numbered branch of that step is blocked on
     something only the harness releases AFTER the caller has returned: the panic must reach the caller anyway"""
@@ -1877,6 +1915,7 @@ def native_families(pid, tier):
     if pid == "C18":
         out += _c18_blocked_sibling_harnesses(pid, tier)
         out += _c18_capture_handler_harnesses(pid, tier)
+        out += _c18_deferred_err_op_harnesses(pid)
     if pid == "C08":
         out += _c08_harnesses(pid, tier)
         out += _c08_nested_harnesses(pid)
